@@ -436,6 +436,43 @@ func (c *Case) Preprocess() (parser.Expr, error) {
 // as step-invariant: its window slides with the step, over whatever the storage happens to return
 // outside the range that was selected (one querier for the whole query in the reference engine,
 // one per selector in this one). What comes out is not determined by the query and the data.
+// tsPinnedOffsetMulti: `timestamp()` over a selector that is pinned (`@`) and shifted (`offset`), in
+// a query with further selectors. The reference engine's special case for timestamp() re-reads
+// the series at `@` from whatever its one query-wide querier returned, i.e. from the union of all
+// selectors' time ranges - its value depends on the other selectors of the query (and is not what
+// the engine returns: known finding KF-timestamp-at-offset). The reference semantics of Sem.lean
+// models the single-selector case.
+func tsPinnedOffsetMulti(e parser.Expr) bool {
+	selectors := 0
+	pinnedShifted := false
+	parser.Inspect(e, func(n parser.Node, _ []parser.Node) error {
+		switch v := n.(type) {
+		case *parser.VectorSelector:
+			selectors++
+		case *parser.Call:
+			if v.Func.Name == "timestamp" && len(v.Args) == 1 {
+				a := v.Args[0]
+				for {
+					if p, ok := a.(*parser.ParenExpr); ok {
+						a = p.Expr
+						continue
+					}
+					if si, ok := a.(*parser.StepInvariantExpr); ok {
+						a = si.Expr
+						continue
+					}
+					break
+				}
+				if vs, ok := a.(*parser.VectorSelector); ok && vs.Timestamp != nil && vs.OriginalOffset != 0 {
+					pinnedShifted = true
+				}
+			}
+		}
+		return nil
+	})
+	return pinnedShifted && selectors >= 2
+}
+
 // movingParamUnderWrapper: PreprocessExpr wrapped an aggregation as step invariant although its
 // parameter is not (it looks at the aggregated expression only): the reference engine - and this
 // one after it - evaluates the whole aggregation once at the window start (known finding
